@@ -96,3 +96,18 @@ Fixpoint mism {A} (ok : A -> bool) (i : nat) (l : list A) : list nat :=
   end.
 Definition edf_mismatches (l : list edf_case) : list nat := mism edf_case_ok 0 l.
 Definition edf_det_mismatches (l : list edf_case) : list nat := mism edf_case_det_ok 0 l.
+
+(* --- the weighted round robin balancer on top of the scheduler -----------------------------
+   EdfLoadBalancer.refresh Adds every host and then performs rand.Intn(n) pre-picks (not observable
+   from outside), so the first pick a client sees starts from a state reached by r < n picks.
+   all successor states under ANY tie-break: *)
+Definition edf_succs (s : edf) : list edf :=
+  flat_map (fun i => match edf_pick s i with Some s' => [s'] | None => [] end) (seq 0 (length (es s))).
+Fixpoint edf_reach (s : edf) (r : nat) : list edf :=
+  match r with O => [s] | S r' => flat_map (fun s' => edf_reach s' r') (edf_succs s) end.
+Definition wrr_case_ok (k : edf_case) : bool :=
+  match k with (ws, picks) =>
+    existsb (fun r => existsb (fun s0 => match edf_run s0 picks with Some _ => true | None => false end)
+                              (edf_reach (edf_of_weights ws) r))
+            (seq 0 (length ws)) end.
+Definition wrr_mismatches (l : list edf_case) : list nat := mism wrr_case_ok 0 l.
